@@ -91,6 +91,14 @@ func (x *Exec) verifyFunc(fn *ssa.Function, c *FuncContract) (err error) {
 		}
 	}
 	env := &SpecEnv{x: x, st: st, old: st, names: names, pkg: fn.Pkg.Pkg}
+	for _, g := range x.db.Ghosts {
+		if g.Pkg != "" && g.Pkg != fn.Pkg.Pkg.Path() {
+			continue
+		}
+		sort, kind, gt := env.sortOfName(g.Type)
+		st.ghost[g.Name] = Value{K: kind, T: gt, Sort: sort, S: x.d.fresh("ghost."+g.Name, sort)}
+		x.ghostNames = append(x.ghostNames, g.Name)
+	}
 	for _, l := range c.Lets {
 		st.ghost[l.Name] = env.eval(l.E)
 	}
@@ -146,6 +154,17 @@ func (x *Exec) frameObligations(st *State, env *SpecEnv, c *FuncContract, fn *ss
 	for _, a := range c.Assigns {
 		if a.Kind == "all" {
 			return
+		}
+	}
+	for _, g := range x.ghostNames {
+		allowed := false
+		for _, a := range c.Assigns {
+			if a.Kind == "ghost" && a.Heap == g {
+				allowed = true
+			}
+		}
+		if !allowed && st.ghost[g].S != x.entry.ghost[g].S {
+			x.oblige(st, "frame", "ghost."+g, mkEq(st.ghost[g].S, x.entry.ghost[g].S), fn.Pos())
 		}
 	}
 	for _, name := range heapNames(st.heaps) {
